@@ -28,6 +28,14 @@ def run(ctx):
     dsl.verify(ctx, repo, G.registry(), "C07.dp", G.DPS + ".sample_tree", G.h_dp, expect_covers=G.DP_COVERS)
     dsl.verify(ctx, repo, G.registry(), "C07.prg", G.PRG + ".sample_tree", G.h_prg, expect_covers=G.PRG_COVERS)
     ctx.trust(*G.registry().assumed)
+    # the subtree move puts the resampled part back: no data point (the subtree's outliers included) may get lost on the way (the weight obligation is C04's business - K01)
+    from contracts import c19_safety as SB
+
+    prev = ctx.vc_filter
+    ctx.vc_filter = lambda name, kind: prev(name, kind) and "correct.weight" not in name
+    dsl.verify(ctx, repo, dsl.Registry(), "C07", SB.SUB + "._correct_weights", SB.h_correct_weights, expect_covers=SB.CORRECT_COVERS)
+    ctx.vc_filter = prev
+    ctx.assume("_correct_weights: the particles of the swarm it receives are pairwise distinct objects (each was created by the last propagation step of the subtree SMC pass)")
     ctx.extra["explanation"] = ("Deductive: the structural Layer-1 contracts shared with C06 (index sets of the nodes, data lists, name <-> index maps, create_root_node rewiring, copy shares nothing, "
                                 "remove_subtree / add_subtree / relabelling keep maps, data lists and graph consistent, dictionary round trip); the data-point and prune-regraft moves return a tree of their own candidate family (same data, the moved point in exactly one place). "
                                 "Obligations about cached likelihood vectors and move probabilities are left to C06 / C04. "
